@@ -19,11 +19,13 @@ FullT == Iv(0, 6)
 (* ---- orientation ---- *)
 OriAll == {Ang(a, a + n) : a \in -Turn..Turn, n \in 0..Turn - 1}
 Compass1 == <<<<1, 0>>, <<1, 1>>, <<0, 1>>, <<-1, 1>>, <<-1, 0>>, <<-1, -1>>, <<0, -1>>, <<1, -1>>, <<0, 0>>>>
-OriProbes == [i \in 1..(IF Big THEN 67 ELSE 59) |->
+FarTh == <<-48, -47, -36, -25, 25, 30, 36, 48>>                                   \* thorough tier: orientations beyond +-2pi
+OriProbes == [i \in 1..(IF Big THEN 75 ELSE 59) |->
                 IF i <= 49 THEN KS(3, <<0, 0>>, i - 25, 0, 1, 0)
                 ELSE IF i = 50 THEN KS(3, <<0, 0>>, 0, 1, 1, 0)                                  \* orientation = int 0
                 ELSE IF i <= 59 THEN PM(3, <<0, 0>>, Compass1[i - 50][1], Compass1[i - 50][2])
-                ELSE PM(3, <<0, 0>>, 2 * Compass1[i - 59][1], 2 * Compass1[i - 59][2])]
+                ELSE IF i <= 67 THEN PM(3, <<0, 0>>, 2 * Compass1[i - 59][1], 2 * Compass1[i - 59][2])
+                ELSE KS(3, <<0, 0>>, FarTh[i - 67], 0, 1, 0)]
 
 (* ---- position (doubled coordinates) ---- *)
 Regions == { Rect(<<0, 0, 4, 4>>), Rect(<<1, 1, 6, 3>>), Rect(<<-1, 2, 9, 3>>),
@@ -125,6 +127,8 @@ Monotone  == [][goal' # goal => Leq3(Reached(goal, s), Reached(goal', s))]_vars 
 TurnInv   == [][s' # s => Compat(Reached(goal, s), Reached(goal', s'))]_vars         \* a full turn changes nothing (up to the band)
 
 (* ---- generation ---- *)
+(* `bands` = number of probes whose expected verdict is EITHER: evidence only (how much of the space the bands take) *)
 Emit == PrintT(<<"CASE", ToJson([cls |-> cls, goal |-> goal, states |-> Probes(cls),
-                                 trajs |-> IF cls = "mix" THEN MixTrajs ELSE <<>>])>>)
+                                 trajs |-> IF cls = "mix" THEN MixTrajs ELSE <<>>,
+                                 bands |-> Cardinality({i \in DOMAIN Probes(cls) : Reached(goal, Probes(cls)[i]) = "EITHER"})])>>)
 =================================================================================
